@@ -493,6 +493,10 @@ pub fn plan(property: &str, tier: Tier, seed: u64) -> Option<Plan> {
             hist_units("C20", "hist", tier.pick(150, 1500), 384, seed, any_spec, true),
             format!("{GEN_RULE}at least two pushes that use two different non-canonical input forms; indices and Σused must equal those of a twin universe fed the canonical form (&Owned)."),
         ),
+        "C03" => (
+            crate::engines::stack::units("C03", tier.pick(400, 4000), seed),
+            "FlatStack histories: proptest tapes decoded into copy (any form) / extend and from_iter (iterators whose size_hint lower bound is 0, half or all of the true length) / with_capacity / reserve / reserve_items / reserve_regions / clear / clone / clone_from / merge_capacity / serde operations over two stacks of one (region composition, index container) pair; after every step both stacks are compared with a Vec of owned values: len, is_empty, get(i) for all i with the deep read oracle, iteration order, size_hint validity at every position (exactness for the vector index container), a cloned iterator taken mid-way, (&stack).into_iter(), and get(i) for i in {len, len+1, len+7, usize::MAX} must panic. Non-trivial: at least three copied elements, at least two of them distinct.".to_string(),
+        ),
         "C05" => (
             crate::engines::index::units("C05", !q, seed, false),
             "Index containers. (a) bounded-exhaustive: every sequence of push(x)/clear over the alphabet {0,1,2,3,4,6,u32::MAX,u32::MAX+1,2^63,usize::MAX,clear} up to length 6 (quick) / 7 (thorough; 9 on a 6-symbol sub-alphabet) applied to Stride, IndexList, IndexOptimized (Vec<usize> to length 5), explored depth-first with cloned state, compared after every op with a Vec<usize> reference (len, is_empty, index(i) for all i, iteration) and, for Stride, with a u128 acceptor of the documented pattern (accept/reject, state unchanged on reject); any panic is a violation. (b) proptest tapes decoded into op lists built from arithmetic runs, repeat runs, boundary values, clear, extend, reserve, serde round trip, clone/clone_from (<= 2000 elements). Non-trivial: >= 3 pushes and the sequence left the pure stride pattern, or a push was rejected, or a clear was followed by reuse; enumerated sequences are distinct by construction, random ones are counted by hash.".to_string(),
@@ -503,6 +507,19 @@ pub fn plan(property: &str, tier: Tier, seed: u64) -> Option<Plan> {
         ),
         _ => return None,
     };
+    let (mut units, mut rule) = (units, rule);
+    if matches!(property, "C08" | "C09" | "C10" | "C16" | "C18" | "C19") {
+        let (sp, n): (&'static str, u32) = match property {
+            "C08" => ("C08", tier.pick(120, 1200)),
+            "C09" => ("C09", tier.pick(120, 1200)),
+            "C10" => ("C10", tier.pick(120, 1200)),
+            "C16" => ("C16", tier.pick(120, 1200)),
+            "C18" => ("C18", tier.pick(120, 1200)),
+            _ => ("C19", tier.pick(150, 1500)),
+        };
+        units.extend(crate::engines::stack::units(sp, n, seed));
+        rule.push_str(" FlatStack clause: the same property is exercised on FlatStack<region, index container> histories (copy/extend/from_iter/with_capacity/reserve/clear/clone/clone_from/merge_capacity/serde over two stacks) against a Vec of owned values, with the index container's share of heap_size (its trailing (used,capacity) pairs) compared with the documented cost of the predicted index sequence.");
+    }
     if q {
         assumptions.push("quick tier: fixed case counts per composition (not time-boxed)".into());
     }
